@@ -775,7 +775,8 @@ Print Assumptions str_table_copy_equiv_thm.
 (* C19 for the string table: source and copy share no bucket, and any operation (get_index of a
    known or new string, add_ref, del_ref) on one of two tables that share no bucket keeps that
    table's invariant, leaves the other table's invariant and abstract value alone, and the two
-   still share no bucket - by induction, for every interleaving *)
+   still share no bucket.  (ONE step: the hypothesis st_roomy is not re-established for the successor, so the
+   statement for whole interleavings is not a theorem here - independent audit 4, item 12) *)
 Theorem str_table_copy_disjoint_thm : forall h dst src h' t',
   str_inv h src -> st_next_index dst = st_next_index src ->
   a_size (st_arr src) = util_sizeof_ptr -> (st_next_index src < ht_safe_limit)%N ->
@@ -1383,3 +1384,139 @@ Example ex_xattr_lookup :
   side false (match ex_life_g _ run_xl_bad (ex_xrd 2%N 2%N) ex_xsched with Some (rs, _) => rs | None => nil end)
   <> side false (match ex_life_g _ run_xl_bad (ex_xrd 2%N 2%N) (only false ex_xsched) with Some (rs, _) => rs | None => nil end).
 Proof. exact ex_xrd_lookup_life. Qed.
+
+(* ---- non-vacuity and a run-level statement (independent audit 4).  Proofs inline: they USE the theorems of this file. ---- *)
+Local Open Scope N_scope.
+From Coq Require Import List NArith ZArith Bool Lia.
+From SqfsV Require Import Util.GenUtil Util.RbModel Util.RbOrder Util.RbBalance Util.RbTheorems Util.RbExamples Util.RbPair.
+(* all hypotheses of rbtree_pair_independent_thm, jointly, on (original, copy): the five-node tree of
+   ex_rbtree_found (keys 2^31 apart), copied by rbtree_copy with the allocator at 5 *)
+Example ex_rbtree_pair_hyps :
+  exists a b next,
+    rb_puts cmp_u32 (ex_tree0, 0) ex_ops = Some (a, 5) /\ rbtree_copy a 5 = Some (b, next) /\ next = 10 /\
+    length (ids (rb_root a)) = 5%nat /\
+    (forall x y, (cmp_u32 x y < 0 <-> 0 < cmp_u32 y x)%Z) /\
+    (forall x y z, (cmp_u32 x y <= 0 -> cmp_u32 y z <= 0 -> cmp_u32 x z <= 0)%Z) /\
+    rbtree_inv cmp_u32 a /\ rbtree_inv cmp_u32 b /\ same_sizes a b /\ pair_ok a b next /\
+    Forall (fun wo : bool * rb_op => op_sized a (snd wo))
+           [(true, RbInsert (le4 9) [4;4;4;4;4;4;4;4]); (false, RbLookup (le4 9)); (false, RbInsert (le4 6) [5;5;5;5;5;5;5;5]);
+            (true, RbLookup (le4 6))].
+Proof.
+  destruct dcache_key_compare_is_order as [A T].
+  assert (I0 : rbtree_inv cmp_u32 ex_tree0).
+  { apply (rbtree_init_inv_holds cmp_u32 4 8). vm_compute. reflexivity. }
+  assert (S0 : ssorted cmp_u32 (rb_key_size ex_tree0) (elements (rb_root ex_tree0))) by (vm_compute; constructor).
+  destruct ex_rbtree_hypotheses as (_ & F & _).
+  destruct (rbtree_refines_map_thm cmp_u32 A T ex_ops ex_tree0 0 I0 S0 F) as (a & n & E & _ & Ia & _ & _ & _).
+  assert (En : n = 5) by (vm_compute in E; inversion E; reflexivity). subst n.
+  destruct (rbtree_copy_equiv_thm a 5 (proj2 (proj2 Ia))) as (b & Ec & _ & Sz & _ & Fb & _ & Dj).
+  exists a, b, (5 + tsize (rb_root a)).
+  assert (Ea : a = match rb_puts cmp_u32 (ex_tree0, 0) ex_ops with Some (t, _) => t | None => ex_tree0 end)
+    by (rewrite E; reflexivity).
+  assert (Fa : Forall (fun i => i < 5) (ids (rb_root a))).
+  { rewrite Ea. vm_compute. repeat constructor. }
+  split; [exact E|]. split; [exact Ec|].
+  split; [rewrite Ea; vm_compute; reflexivity|].
+  split; [rewrite Ea; vm_compute; reflexivity|].
+  split; [exact A|]. split; [exact T|]. split; [exact Ia|].
+  split; [exact (rbtree_copy_keeps_inv cmp_u32 a 5 b _ Ia Ec)|].
+  split; [destruct Sz as (s1 & s2 & s3); repeat split; congruence|].
+  split.
+  - split; [|split].
+    + eapply Forall_impl; [|exact Fa]. cbv beta. intros; lia.
+    + eapply Forall_impl; [|exact Fb]. cbv beta. intros; lia.
+    + exact (Dj Fa).
+  - rewrite Ea. repeat constructor.
+Qed.
+Print Assumptions ex_rbtree_pair_hyps.
+From Coq Require Import List NArith ZArith Bool Lia.
+From SqfsV Require Import Util.GenUtil Util.HashModel Util.HashRows Util.ArrayModel Util.StrModel Util.StrProofs Util.StrIndex Util.StrCopy.
+(* all hypotheses of str_table_step_independent_thm (and of str_table_copy_equiv_thm / _disjoint_thm before it),
+   jointly: the table str_table_init returns, one string added, copied the way xattr_writer_copy does *)
+Example ex_str_table_step_independent_hyps :
+  exists h a b,
+    str_inv h a /\ str_inv h b /\ disjoint_tables a b /\ disjoint_tables b a /\ st_roomy a /\
+    str_abs h a = [([117; 115], 0)] /\ str_abs h b = str_abs h a.
+Proof.
+  destruct str_table_init_inv_thm as (t0 & E0 & N0 & I0).
+  assert (T0 : t0 = match str_table_init with Some (_, t) => t | None => t0 end) by (rewrite E0; reflexivity).
+  pose (h0 := mk_bheap 0 nil).
+  destruct (I0 h0) as [Inv0 Abs0].
+  assert (NI : ~ In [117; 115] (strings h0 t0)).
+  { rewrite T0. vm_compute. tauto. }
+  assert (R0 : a_size (st_arr t0) = util_sizeof_ptr /\ a_count (st_arr t0) <= 1099511627776).
+  { rewrite T0. vm_compute. split; [reflexivity|discriminate]. }
+  assert (L0 : st_next_index t0 < ht_safe_limit) by (rewrite N0; vm_compute; reflexivity).
+  destruct (str_table_get_index_new_thm h0 t0 [117; 115] Inv0 NI L0 (proj1 R0) (proj2 R0))
+    as (h1 & t1 & _ & Inv1 & Abs1 & N1 & _ & _ & S1 & C1 & _).
+  assert (L1 : st_next_index t1 < ht_safe_limit) by (rewrite N1, N0; vm_compute; reflexivity).
+  destruct (str_table_copy_equiv_thm h1 t1 t1 Inv1 eq_refl S1 L1)
+    as (h2 & c & Ec & Invc & Absc & _ & _ & _ & Inv1' & Abs1').
+  destruct (str_table_copy_disjoint_thm h1 t1 t1 h2 c Inv1 eq_refl S1 L1 Ec) as [D1 D2].
+  exists h2, t1, c.
+  split; [exact Inv1'|]. split; [exact Invc|]. split; [exact D1|]. split; [exact D2|].
+  split; [exact (conj L1 (conj S1 C1))|].
+  split; [rewrite Abs1', Abs1, Abs0; reflexivity|rewrite Absc, Abs1'; reflexivity].
+Qed.
+Print Assumptions ex_str_table_step_independent_hyps.
+From Coq Require Import List NArith ZArith Bool Lia Permutation.
+From SqfsV Require Import Util.GenUtil Util.FastRem Util.HashModel Util.HashBase Util.HashRows Util.HashInv Util.HashContracts.
+(* the hash table's REAL operation sequence: hash_table_create, then any sequence of
+   search / insert / "search, then remove the entry found" (what block_processor.c and str_table.c do).
+   Every call returns, [wf] holds throughout: the single-step contracts of Properties_C19 compose from the constructor. *)
+Section Run.
+Variables K V : Type.
+Variable keq : K -> K -> bool.
+
+Inductive hop := HFind (hash : N) (key : K) | HIns (hash : N) (key : K) (data : V) | HDel (hash : N) (key : K).
+Definition hop_hash (o : hop) : N := match o with HFind h _ | HIns h _ _ | HDel h _ => h end.
+
+Definition ht_step (t : htab K V) (o : hop) : res (htab K V) :=
+  match o with
+  | HFind h k => match ht_search K V keq t h k with Ok _ => Ok t | Crash => Crash | OutOfFuel => OutOfFuel end
+  | HIns h k d => match ht_insert K V keq t h k d with Ok (t', _) => Ok t' | Crash => Crash | OutOfFuel => OutOfFuel end
+  | HDel h k => match ht_search K V keq t h k with
+                | Ok (Some a) => Ok (ht_remove_entry K V t a)
+                | Ok None => Ok t
+                | Crash => Crash | OutOfFuel => OutOfFuel
+                end
+  end.
+
+Fixpoint ht_run (t : htab K V) (ops : list hop) : res (htab K V) :=
+  match ops with
+  | [] => Ok t
+  | o :: r => match ht_step t o with Ok t' => ht_run t' r | e => e end
+  end.
+
+Lemma step_ok : forall t o, wf K V t -> hop_hash o < two32 -> ht_entries K V t < ht_safe_limit ->
+  exists t', ht_step t o = Ok t' /\ wf K V t' /\ ht_entries K V t' <= ht_entries K V t + 1.
+Proof.
+  intros t o W H L. destruct o as [h k|h k d|h k]; cbn [ht_step hop_hash] in *.
+  - destruct (hash_table_search_contract K V keq t h k W H) as (r & E & _). rewrite E. exists t. split; [reflexivity|split; [exact W|lia]].
+  - destruct (hash_table_insert_contract K V keq t h k d W H L) as (t' & a & E & W' & _ & [(k0 & d0 & rest & _ & _ & _ & Q)|(_ & _ & Q)]);
+      rewrite E; exists t'; (split; [reflexivity|split; [exact W'|lia]]).
+  - destruct (hash_table_search_contract K V keq t h k W H) as (r & E & S). rewrite E. destruct r as [a|].
+    + destruct S as (k1 & d1 & Hn & _).
+      destruct (hash_table_remove_contract K V t a h k1 d1 W Hn) as (W' & rest & P & Lv).
+      exists (ht_remove_entry K V t a). split; [reflexivity|]. split; [exact W'|].
+      rewrite (wf_entries K V _ W'), (wf_entries K V _ W), Lv. unfold lenN. rewrite (Permutation_length P). cbn [length]. lia.
+    + exists t. split; [reflexivity|split; [exact W|lia]].
+Qed.
+
+Theorem hash_table_run_from_create : forall ops,
+  Forall (fun o => hop_hash o < two32) ops -> N.of_nat (length ops) < ht_safe_limit ->
+  exists t0 t, ht_create K V = Some t0 /\ ht_run t0 ops = Ok t /\ wf K V t.
+Proof.
+  intros ops F B. destruct (hash_table_create_wf K V) as (t0 & E0 & W0 & L0).
+  exists t0. assert (E00 : ht_entries K V t0 = 0) by (rewrite (wf_entries K V _ W0), L0; reflexivity).
+  assert (G : forall ops t, wf K V t -> Forall (fun o => hop_hash o < two32) ops ->
+              ht_entries K V t + N.of_nat (length ops) < ht_safe_limit -> exists t', ht_run t ops = Ok t' /\ wf K V t').
+  { clear. induction ops as [|o r IH]; intros t W F B.
+    - exists t. split; [reflexivity|exact W].
+    - inversion F as [|? ? Ho Fr]; subst. cbn [length] in B.
+      destruct (step_ok t o W Ho) as (t1 & E & W1 & L1); [lia|].
+      cbn [ht_run]. rewrite E. apply IH; [exact W1|exact Fr|lia]. }
+  destruct (G ops t0 W0 F) as (t & E & W); [rewrite E00; lia|]. exists t. auto.
+Qed.
+End Run.
+Print Assumptions hash_table_run_from_create.
